@@ -83,6 +83,7 @@ COVER = [
     ({"EXPR-LAYOUT"}, {"GEN-EXPR"}),
     ({"BOUND-SAMESRC"}, {"GEN-BLOCKS", "GEN-DEFS", "GEN-EXPR"}),
     ({"RULE-COHERENCE"}, {"GEN-KERNEL"}),
+    ({"PERM-FLAG-IMPL"}, {"GEN-INTEGRAL-DRIVER"}),
     ({"IDX-SPACE", "PERM-CONSISTENT", "FORM-KERNEL-ALIGN"}, {"GEN-FORM"}),
 ]
 
@@ -138,6 +139,7 @@ DEMOTE = {
     "FORM-KERNEL-ALIGN": ({"GEN-FORM"}, lambda key: True),
     "BOUND-SAMESRC": ({"GEN-BLOCKS", "GEN-DEFS", "GEN-EXPR"}, lambda key: True),
     "RULE-COHERENCE": ({"GEN-KERNEL"}, lambda key: True),
+    "PERM-FLAG-IMPL": ({"GEN-INTEGRAL-DRIVER"}, lambda key: True),
     "EXPR-LAYOUT": ({"GEN-EXPR"}, lambda key: any(t in key for t in (":multi-index-count", ":index-roles:", ":factor-of-component"))),
 }
 
